@@ -132,6 +132,38 @@ def _harness(kind):
 
 HARNESSES = [_harness(k) for k in range(6)]
 
+def real_replay(harness, args, failure):
+    """Thread kinds: reproduce the landing on a real thread with a line tracer (vf/realthread.py)."""
+    import re
+    if harness not in ("thread", "pthread"):
+        return None, "real-thread replay covers the thread kinds only"
+    m = re.search(r"label=(\S+)", failure.get("detail", ""))
+    if not m or ":" not in m.group(1) or m.group(1).startswith("target:"):
+        return None, "landing label has no source line"
+    label = m.group(1)
+    from .. import realthread
+    realthread.restore_real_world()
+    from pyworkers.thread import ThreadWorker
+    from pyworkers.persistent_thread import PersistentThreadWorker
+    ending, idx = ENDINGS[args["e"]]
+    cls = ThreadWorker if harness == "thread" else PersistentThreadWorker
+    T.reset()
+    r = realthread.run_with_landing(lambda: cls(T.work, args=[ending, idx]), label,
+                                    after=(lambda w: w.enqueue()) if harness == "pthread" else None)
+    if r is None or not r["fired"]:
+        return None, "the real thread never reached %s" % label
+    alive, he, res, err = r["observed"]
+    is_wte = he is True and res is None and isinstance(err, WorkerTerminatedError)
+    unreported = he is True and res is None and err is None
+    text = "real thread, WorkerTerminatedError raised at %s: observed %r" % (label, r["observed"])
+    sig = failure["signature"]
+    if "outcome-not-terminated" in sig or "not-reported-as-terminated" in sig:
+        return (not (is_wte or unreported)) if "before-target" in sig else (not is_wte), text
+    if "outcome-neither-own-nor-terminated" in sig:
+        return (not (is_wte or unreported or own_outcome_ok(3 if harness == "pthread" else 0, args["e"], he, res, err))), text
+    return None, text + " (no automatic comparison for this signature)"
+
+
 SPEC = PropSpec(
     "C03", HARNESSES,
     assumptions=[
@@ -144,5 +176,6 @@ SPEC = PropSpec(
     ],
     outside=["opcode-level landing points", "wall-clock bound of terminate (C04 covers model time)", "Windows aux-socket path"],
     stubs=["vf/simos.py"],
+    real_replay=real_replay,
     technique="CrossHair/z3 bounded symbolic execution over a deterministic simulation of the real worker code",
 )
